@@ -457,14 +457,18 @@ def compare(case, opts, exp, R):
             it, ip, cls, np.round(Eexp[it, ip], 12).tolist(), G[it, ip].tolist(), float(np.max(t)))
         # a permutation of positions? (this spectrum arrived somewhere else, or somebody else's spectrum arrived here)
         moved = None
-        for (it2, ip2) in nondeg:
-            if (it2, ip2) == (it, ip):
-                continue
-            if cls not in degenerate and matches(got_q[it2, ip2], e, t, cls):
-                moved = ((it, ip), (it2, ip2))
-                break
-            if matches(g, exp_q[it2, ip2], tol[it2, ip2], classes[it2 * nP + ip2]):
-                moved = ((it2, ip2), (it, ip))
+        for it2 in range(nT):
+            for ip2 in range(nP):
+                if (it2, ip2) == (it, ip):
+                    continue
+                if cls not in degenerate and matches(got_q[it2, ip2], e, t, cls):
+                    moved = ((it, ip), (it2, ip2))  # this spectrum arrived over there
+                    break
+                c2 = classes[it2 * nP + ip2]
+                if c2 not in degenerate and matches(g, exp_q[it2, ip2], tol[it2, ip2], c2):
+                    moved = ((it2, ip2), (it, ip))  # somebody else's spectrum arrived here
+                    break
+            if moved is not None:
                 break
         if moved is not None:
             (a0, b0), (a1, b1) = moved
@@ -490,10 +494,11 @@ def hazards(case):
     d = directions(case["nd"], case["dirorder"], v["dstart_whole"] if case["fmt"] == "octopus" else v["dstart"])
     step = 360.0 / case["nd"]
     h = []
-    if abs(float(circ_diff(d[0], d[1])) - step) > 1e-9:
-        h.append("first-two-stored-dirs-not-neighbours")
-    elif abs(abs(d[1] - d[0]) - step) > 1e-9:
-        h.append("first-two-stored-dirs-across-360")
+    if case["fmt"] == "octopus":  # (the funwave writer re-orders the directions into its own convention first)
+        if abs(float(circ_diff(d[0], d[1])) - step) > 1e-9:
+            h.append("first-two-stored-dirs-not-neighbours")
+        elif abs(abs(d[1] - d[0]) - step) > 1e-9:
+            h.append("first-two-stored-dirs-across-360")
     if case["fmt"] == "funwave" and sum(1 for x in d if 0.0 < x % 360.0 < 90.0) == 1:
         h.append("one-dir-strictly-inside-(0,90)")
     return h
